@@ -15,7 +15,7 @@ theorem locOf_append_left (vs ext : List Vtx) (i : Nat) (h : i < vs.length) :
     locOf (vs ++ ext) i = locOf vs i := by
   simp [locOf, List.getElem?_append_left h]
 
-theorem vfind_some (loc : Nat) (sl : List String) (vs : List Vtx) (i : Nat)
+theorem vfind_some (loc : Pt) (sl : List String) (vs : List Vtx) (i : Nat)
     (h : vfind loc sl vs = some i) : i < vs.length ∧ locOf vs i = loc := by
   induction vs generalizing i with
   | nil => simp [vfind] at h
@@ -33,7 +33,7 @@ theorem vfind_some (loc : Nat) (sl : List String) (vs : List Vtx) (i : Nat)
         have := ih j hr
         exact ⟨by simp; omega, by simpa [locOf] using this.2⟩
 
-theorem vadd_spec (vs : List Vtx) (loc : Nat) (proj sl : List String) :
+theorem vadd_spec (vs : List Vtx) (loc : Pt) (proj sl : List String) :
     ∃ ext, (vadd vs loc proj sl).1 = vs ++ ext ∧ (vadd vs loc proj sl).2 < (vadd vs loc proj sl).1.length ∧
       locOf (vadd vs loc proj sl).1 (vadd vs loc proj sl).2 = loc := by
   unfold vadd
@@ -70,7 +70,7 @@ theorem addVertsAux_spec (sl : List String) (o : Op) (cs : List Nat) (vs : List 
       congr 1
       rw [h2, locOf_append_left _ _ _ hlt, hloc]
 
-theorem corners8 (l : List Nat) (h : l.length = 8) :
+theorem corners8 (l : List Pt) (h : l.length = 8) :
     [0, 1, 2, 3, 4, 5, 6, 7].map (fun c => l.getD c 0) = l := by
   match l, h with
   | [_, _, _, _, _, _, _, _], _ => rfl
@@ -95,7 +95,7 @@ attribute [local irreducible] addVerts
 
 /-! ### blocks sit on the corners of their operations -/
 
-def range8Corners (o : Op) : List Nat := [0, 1, 2, 3, 4, 5, 6, 7].map (fun c => o.corners.getD c 0)
+def range8Corners (o : Op) : List Pt := [0, 1, 2, 3, 4, 5, 6, 7].map (fun c => o.corners.getD c 0)
 
 def GoodPair (ops : List Op) (vs : List Vtx) (p : Block × Nat) : Prop :=
   ∃ o ∈ ops, p.2 = o.id ∧ p.1.opId = o.id ∧ p.1.verts.map (locOf vs) = range8Corners o ∧
@@ -162,9 +162,9 @@ theorem foldl_addOp_blocks (sl : List String) (ops : List Op) (l : Lists) :
 
 /-! ### the backport loop -/
 
-def setCorners (cs : List Nat) (id : Nat) (o : Op) : Op := if o.id = id then { o with corners := cs } else o
+def setCorners (cs : List Pt) (id : Nat) (o : Op) : Op := if o.id = id then { o with corners := cs } else o
 
-theorem setCorners_id (cs : List Nat) (id : Nat) (o : Op) : (setCorners cs id o).id = o.id := by
+theorem setCorners_id (cs : List Pt) (id : Nat) (o : Op) : (setCorners cs id o).id = o.id := by
   unfold setCorners; split <;> rfl
 
 /-- what the loop does to one operation -/
